@@ -362,14 +362,17 @@ PLANS = {
         "replay_args": ["compile", "-n", "100", "-seed", "1"],
         "engine": "histories",
         "rule": "kind history: one history = 3..10 operations on up to four real configs (contents over constants, variables incl. "
-                "undefined-variable mode, operators, costs, options present / absent, stateless list): Compile of one of ten "
+                "undefined-variable mode, operators, costs, options present / absent, stateless list): Compile of one of sixteen "
                 "sources (directive combinations: none, optimize:false, single optimizers off/on, later-overrides-earlier; "
                 "unknown names; stateless calls), CopyConfig / ExtendConf followed by mutation of every component of the copy "
                 "and an append to the source's stateless list, caller mutation; deep snapshot of the config before and after "
                 "every call, program fingerprint = Dump + DumpTable + results; judged: snapshot unchanged by Compile, same "
                 "(contents, source) => same fingerprint across the whole history, mutating a copy never changes its source; "
                 "kind concurrent: 8 goroutines x 12 compilations on one shared config vs the sequential baseline, built with "
-                "-race (a race report with an access inside onheap/eval is a violation); non-trivial = a compile after an "
+                "-race (a race report with an access inside onheap/eval is a violation); kind conv: the convenience call "
+                "eval.Eval(src, vals) without options, 4 calls per source with the same names but the operator functions behind "
+                "f/g and zt/zf exchanged from call to call, each value judged against Semantics!Den under that call's operators; "
+                "cost maps that price two spellings of an operator while the source uses the third; non-trivial = a compile after an "
                 "earlier compile on the same config, a copy/extend step, or a concurrent run",
         "sample": lambda o: {"kind": o["kind"], "steps": o.get("steps", [])[:4], "runs": o.get("runs", [])[:3]},
         "assumptions": ["Go race detector (linux/amd64 runtime present)", "snapshots render every exported field of Config; operators by code pointer",
